@@ -285,6 +285,9 @@ func (r *Run) Finish(level, rule string) {
 	samples := r.samples
 	if samples == nil {
 		samples = []any{}
+		if replayDoc != nil {
+			samples = append(samples, map[string]any{"replayed": replayDoc["replay"]})
+		}
 	}
 	cov["samples"] = samples
 	var vk []string
@@ -326,7 +329,11 @@ func (r *Run) Finish(level, rule string) {
 	}
 	dir := filepath.Join(r.VerifDir, "evidence")
 	os.MkdirAll(dir, 0o755)
-	if err := os.WriteFile(filepath.Join(dir, r.Prop+".json"), append(b, '\n'), 0o644); err != nil {
+	name := r.Prop + ".json"
+	if replayDoc != nil {
+		name = r.Prop + ".replay.json" // a replay never overwrites the evidence of a real run
+	}
+	if err := os.WriteFile(filepath.Join(dir, name), append(b, '\n'), 0o644); err != nil {
 		fmt.Printf("INCONCLUSIVE property=%s cannot write evidence: %v\n", r.Prop, err)
 		os.Exit(2)
 	}
@@ -360,5 +367,8 @@ func ReplayInput() (map[string]any, bool) {
 		fmt.Printf("cannot parse replay %s: %v\n", p, err)
 		os.Exit(2)
 	}
+	replayDoc = m
 	return m, true
 }
+
+var replayDoc map[string]any
